@@ -9,5 +9,6 @@ CONSTANTS
   MaxCloses = 1
   BugNoDrainer = FALSE
   BugCloseKeepsMap = FALSE
-INVARIANTS NoDoubleClose NoSendOnClosed InOrder OnlyOwnTopics RegistryConsistent NoDeadlock
+  BugCntDecr = FALSE
+INVARIANTS NoDoubleClose NoSendOnClosed InOrder OnlyOwnTopics RegistryConsistent LiveSubscribersRegistered NoDeadlock
 CHECK_DEADLOCK FALSE
